@@ -44,6 +44,35 @@ def cache_trace_oracle(fields, impl, model):
     return tags
 
 
+def _cut(x, mark=b"#"):
+    return x[:x.index(mark)] if mark in x else x
+
+
+def history_oracle(fields, impl, model):
+    """C08: every step of the history must equal the first invocation of a freshly built copy
+    of the same Action with the same Context (computed by the harness itself: the part after '#')."""
+    if impl and impl[0] == b"panic":
+        return [("panic", impl[1][:80] if len(impl) > 1 else b"")]
+    if b"#" not in impl:
+        return [("malformed", b"")]
+    k = impl.index(b"#")
+    actual, fresh = impl[1:k], impl[k + 1:]
+    def steps(x):
+        out, cur = [], []
+        for f in x:
+            if f == b";":
+                out.append(cur)
+                cur = []
+            else:
+                cur.append(f)
+        return out
+    a, b = steps(actual), steps(fresh)
+    for i, (x, y) in enumerate(zip(a, b)):
+        if x != y:
+            return [("not-repeatable", ("step %d" % i).encode())]
+    return []
+
+
 # pid -> list of streams; each stream: harness name, model runner, oracle runner, counts
 PROPS = {
     "C11": dict(streams=[dict(harness="multiparts", model="multiparts", oracle="multiparts_oracle", quick=6000, thorough=200000)],
@@ -90,6 +119,14 @@ PROPS = {
                      "(absent / present, expired) x interruption (write error with SIGXFSZ ignored / process killed) x every cut offset k = 0..len+1 "
                      "(every third offset for the largest size in the quick tier); each case runs a writer process under RLIMIT_FSIZE = k and a fresh "
                      "reader process; exhaustive over that space"),
+    "C08": dict(streams=[dict(harness="history", model="history", oracle=None, quick=4000, thorough=150000,
+                             project=lambda f, x: _cut(x), oracle_cmp=history_oracle,
+                             nontrivial=lambda f, impl: impl.count(b";") >= 6)],
+                tie="Model/Action.v pure semantics (invoke . denote, history-independent) <-> real Actions built once and invoked repeatedly",
+                rule="cases = a pool of 3-6 Actions built ONCE (1-2 static Actions shared by reference, expressions over them and over earlier pool "
+                     "entries: Prefix/Suffix/Style/Tag/Suppress/NoSpace/Usage/Filter/MultiParts/UniqueList/Batch/partition/ActionMessage with arguments/"
+                     "ActionMultiParts) and a history of 3-9 invocations (pool index, Context) with repeats and interleavings; every step is compared "
+                     "with the pure model and with the first invocation of a freshly rebuilt pool; non-trivial = at least 3 steps"),
 }
 
 TRUSTED = ["Go harness stream(s) and extracted oracle of this property (see rule)"]
@@ -247,3 +284,8 @@ def pred_mp_overlapping_dividers(f):
 def pred_mp_ci_letter_divider(f):
     import re
     return f["case"][0] == b"1" and any(re.search(rb"[A-Za-z]", d) for d in _mp_dividers(f))
+
+
+def pred_never(f):
+    """findings documented from probes that no stream of this check generates"""
+    return False
